@@ -15,6 +15,37 @@ HOLD = {
 }
 NOT_APPLICABLE.update(HOLD)
 
+
+# clauses added after the seeded-change rounds (appended to the rule author's level_text)
+ADDENDA = {
+ "C03": "Also decides that every index key generator returns a duplicate-free list (sort before dedup, over the whole result) — idx_diff's merge walk is only a set difference then.",
+ "C06": "Also decides that a read transaction opens an SQL transaction (BEGIN) on its connection before it is constructed.",
+ "C08": "Also decides that both replication encoders transmit every attribute change id, skipping attributes only for schema/range reasons, never because of the entry's values.",
+ "C09": "Also decides that the incremental consumer hands every incoming entry to the conflict/merge tables (nothing removed or filtered before).",
+ "C11": "Also decides the trim rules: only revocations older than the trim point are dropped, and a forced size trim never looks at the session state.",
+ "C12": "Also decides field routing for passwords: every Kdf field is stored in, and read back from, the same field (writer then reader is the identity on fields).",
+ "C13": "Also decides that the RUV delta functions consult the cleared-in-this-transaction marker that restore() sets.",
+ "C15": "Also decides that the schema check's exemption for class conflict is only usable on recycled entries (conflict added with recycled, removed with it), and that every write path refreshes the cached schema.",
+ "C16": "Also decides that no ValueSetT::remove removes references inside the closure of a short-circuiting iterator adapter.",
+ "C17": "Also decides that the leaf write-back change test compares every attribute the plugin recomputed.",
+ "C18": "Also decides that apply_dyngroup_change overwrites the cached filter of every dynamic group it processes.",
+ "C20": "Also rejects any arm (guarded or not) that takes an attribute-bearing Modify variant past the uuid test.",
+ "C21": "Also decides that each GidNumber hook runs over the whole candidate list (no filtering adapter).",
+ "C22": "Also decides that Spn::modify_inner sets the spn of every account/group candidate under the class test only.",
+ "C24": "Also decides that every write path, replication included, refreshes the cached access control profiles.",
+ "C26": "Also decides that revive accumulates one membership modification per revived entry and group.",
+ "C28": "Also decides that soft-lock policies are produced only from the credential (no constant policy on an authentication path).",
+ "C31": "Also decides that every write path, replication included, refreshes the cached system configuration (badlist).",
+ "C32": "Also decides that entry lookups on the token-to-identity paths hide recycled and tombstoned entries.",
+ "C34": "Also decides that every write path, replication included, reloads key material, with a class-only condition on the replication path.",
+ "C40": "Also decides that the executed filter and the access-checked filter of LDAP search/compare events come from the same client filter.",
+ "C42": "Also requires the request grammar to hand on the current nesting budget in every recursive alternative (no fresh restart).",
+ "C43": "Also decides that the client drops its cached stream after any failed exchange, so a late reply cannot answer the next request.",
+ "C44": "Also decides that resolver methods read the cached token only after taking the single-writer lock when they write a token back.",
+ "C45": "Also decides that a successful offline authentication writes back the latest cached record, not the session snapshot.",
+ "C48": "Also decides that an existing built-in entry can only be left as is through the assert-modify (no success shortcut).",
+}
+
 ids = [json.loads(l)["id"] for l in open(os.path.join(VERIF, "properties.jsonl"))]
 checks = []
 na = []
@@ -40,7 +71,7 @@ for i in ids:
         "evidence_file": f"/verif/evidence/{i}.json",
         "replay_cmd_template": f"./check {i} --replay {{path}}",
         "engine": "kvfacts+rules",
-        "level_claimed": {"category": getattr(m, "LEVEL", "other"), "text": meta["level_text"],
+        "level_claimed": {"category": getattr(m, "LEVEL", "other"), "text": meta["level_text"] + ((" " + ADDENDA[i]) if i in ADDENDA else ""),
                           "design_ref": meta.get("design_ref", f"DESIGN.md section 5, {i}")},
         "level_note": meta["level_note"],
         "technique": meta["technique"],
